@@ -9,6 +9,9 @@ CONSTANTS
   MaxFail = 1
   MaxSync = 1
   Eager = FALSE
+  SendHoldsLock = TRUE
+  MaxApply = 1
+  Gated = {FALSE}
   Hist = FALSE
   EmitMode = "none"
 INVARIANTS TypeOK
